@@ -220,8 +220,9 @@ def ctorLine : P String := do
                 | .fin x, .fin y => decide (absQ (x - y) ≤ tol) | _, _ => false))) s!"{compB} conversion_changed_dynamics"
             let v := v.failIf (pomdp && !(all3 m.A m.S sp.O (fun a s o => match get3 p.Om a s o, get3 sp.om s a o with
                 | .fin x, .fin y => decide (absQ (x - y) ≤ tol) | _, _ => false))) s!"{compO} conversion_changed_observations"
+            let Tt := mk3 m.A m.S m.S (fun a s s1 => get3 m.T s a s1)
             let v := v.failIf (!(all2 m.S m.A (fun s a =>
-                match expReward m.S m.R (mk3 m.A m.S m.S (fun a s s1 => get3 m.T s a s1)) s a, get2 p.R s a with
+                match expReward m.S m.R Tt s a, get2 p.R s a with
                 | .fin e, .fin g =>
                     -- the sparse class ignores rewards below the threshold: allow tol per successor
                     decide (absQ (e - g) ≤ (if kb == Rep.sparse then tol * (m.S + 1) else 0) + eps * (1 + absQ e))
@@ -272,6 +273,37 @@ def discLine : P String := do
   let v := v.diffIf (!threw && !(xeq after d)) s!"{comp} stored_discount"
   return v.render
 
+/-- `lm file cls op arg before | err after nrows (len entries)*` : learned / factored models derived by the library -/
+def lmLine : P String := do
+  let file ← P.tok; let cls ← P.tok; let op ← P.tok; let arg ← P.x; let before ← P.x; P.bar
+  let err ← P.tok; let after ← P.x
+  let rows ← P.list (P.list P.x); P.eof
+  let threw := err != "none"
+  let comp := cls ++ "::" ++ (if op == "ctor" then "ctor" else if op == "setDiscount" then "setDiscount" else "sync")
+  let g := learnedGuard file
+  let facts := (AITB.Gen.Guards.learnedModels.find? (fun x => x.1 == cls)).map (fun x => x.2.2)
+  let (ck, vf) := facts.getD (false, false)
+  let v : Verdict := { tag := "lm_" ++ op ++ (if threw then " rejected" else " accepted") }
+  let v := v.failIf (threw && err != "invalid_argument") s!"{comp} wrong_exception_class {err}"
+  -- a learned model is a model object: whatever exists has a discount in (0,1] and distribution rows
+  let v := v.failIf ((op != "ctor" || !threw) && !(inUnitB after)) s!"{comp} {discKind after} {after}"
+  let v := v.failIf (!(rows.all (rowDistB slack))) s!"{comp} row_not_distribution"
+  let v := v.failIf (op != "ctor" && threw && !(xeq before after)) s!"{comp} failed_call_changed_object"
+  let v := v.failIf ((op == "ctor" || op == "setDiscount") && threw && inUnitB arg) s!"{comp} rejects_valid_discount {arg}"
+  let v := v.failIf (op != "ctor" && op != "setDiscount" && (threw || !(xeq before after))) s!"{comp} experience_call_touched_discount"
+  -- correspondence of the discount cell with the model (rows: C07's harness)
+  let v := match op with
+    | "ctor" =>
+        let m := lmCtor ck g arg
+        let v := v.diffIf (m.isNone != threw) s!"{comp} outcome model={errOfBool m.isNone} impl={err}"
+        v.diffIf (!threw && !(xeq after arg)) s!"{comp} stored_discount"
+    | "setDiscount" =>
+        let (d', t) := lmSetDiscount vf g before arg
+        let v := v.diffIf (t != threw) s!"{comp} outcome model={errOfBool t} impl={err}"
+        v.diffIf (t == threw && !(xeq d' after)) s!"{comp} stored_discount"
+    | _ => v
+  return v.render
+
 def evP : P Ev := do
   let s ← P.nat; let a ← P.nat; let s1 ← P.nat; let p ← P.q; let r ← P.q
   return ⟨s, a, s1, p, r⟩
@@ -297,6 +329,9 @@ def amdpLine : P String := do
   -- belief's most likely state (theorem discretize_lt covers the arithmetic; the entropy term is not modelled)
   let v := v.failIf (bs.any (fun (_, i) => decide (i ≥ S0 * buckets))) s!"AMDP::makeDiscretizer index_out_of_range"
   let v := v.diffIf (bs.any (fun (b, i) => i % S0 != argmaxBelief b)) s!"AMDP::makeDiscretizer base_state"
+  -- a belief with zero entropy (every entry exactly 0 or 1) belongs to the lowest-entropy bucket, whatever S is
+  let v := v.failIf (bs.any (fun (b, i) => b.all (fun q => decide (q = 0) || decide (q = 1)) && i / S0 != 0))
+             s!"AMDP::makeDiscretizer zero_entropy_belief_not_in_bucket_0"
   -- correspondence with the modelled accumulate-and-normalise phase
   let guarded := AITB.Gen.Guards.amdpDenseGuardedDivide
   let v := v.diffIf (!(all3 A S1 S1 (fun a s s1 => xclose (.fin (amdpT evs S1 a s s1)) (get3 T a s s1)))) s!"{comp} transitions"
@@ -393,6 +428,7 @@ def handle (toks : List String) : String :=
     | "isprob" :: rest => P.run isprobLine rest
     | "disc" :: rest => P.run discLine rest
     | "amdp" :: rest => P.run amdpLine rest
+    | "lm" :: rest => P.run lmLine rest
     | "push" :: rest => P.run pushLine rest
     | "coop" :: rest => P.run coopLine rest
     | "guards" :: rest => P.run guardsLine rest
